@@ -2457,4 +2457,30 @@ theorem database_no_digest {α : Type} [Add α] [OfNat α 0] [BEq α] [LE α] [D
 example : occsOf (⟨0, 5, 50, none⟩ : Sage.C05.Params) [] = [] := rfl
 
 
+/-- **C06.fromStr_nonascii_rejected** — a key containing any non-ASCII character (equivalently, in its
+    UTF-8 text, any byte ≥ 0x80) is rejected, whatever else it contains: in particular a single two-byte
+    character whose code point's low byte is a residue letter (`ō` U+014D → `M`, `Ń` → `C`, `ŋ` → `K`) is
+    NOT read as that residue. (`str::len` is the BYTE length, `chars()` iterates code points: the model's
+    `utf8Len` / list length make the same distinction.) -/
+theorem fromStr_nonascii_rejected (s : List Nat) (h : ∃ c ∈ s, 128 ≤ c) : ∃ e, fromStr s = .error e := by
+  cases hf : fromStr s with
+  | error e => exact ⟨e, rfl⟩
+  | ok t =>
+    exfalso
+    obtain ⟨c, hc, hge⟩ := h
+    have hg := grammar_of_fromStr hf
+    cases hg <;> simp only [List.mem_cons, List.not_mem_nil, or_false] at hc <;>
+      first
+      | (subst hc; omega)
+      | (rcases hc with rfl | rfl
+         · omega
+         · rename_i hv; have := (validAA_ascii hv).1; omega)
+      | (rename_i hv; subst hc; have := (validAA_ascii hv).1; omega)
+
+/-- the seeded look-alikes, concretely: all rejected with `InvalidResidue` of the real character -/
+example : fromStr [0x14D] = .error (.invalidResidue 0x14D) ∧ fromStr [0x143] = .error (.invalidResidue 0x143) ∧
+    fromStr [0x14B] = .error (.invalidResidue 0x14B) ∧ fromStr [94, 0x14D] = .error .tooLong ∧
+    fromStr [0xFF2D] = .error .tooLong ∧ fromStr [77, 0x301] = .error .tooLong ∧ fromStr [109] = .error (.invalidResidue 109) := by
+  decide
+
 end Sage.C06
